@@ -48,6 +48,9 @@ structure Node where
   kids    : List Obj := []
   skipped : List Obj := []
   home    : Loc := 0
+  /-- set on the local copy `resolved` that a resolver makes of a target that is itself a reference:
+      the copy is taken when the target is reached, with whatever value the original has by then -/
+  orig    : Option Obj := none
   deriving Repr
 
 structure World where
@@ -86,8 +89,8 @@ def St.get (s : St) (o : Obj) : Option Obj := (s.value.find? (·.1 = o)).map (·
 
 inductive Res
   | ok (s : St)
-  | err            -- load error
-  | panic          -- interface-conversion panic inside a backtrack callback / nil dereference
+  | err (foreign : Bool)     -- load error (with the `foreign` flag at that moment, for classification only)
+  | panic (foreign : Bool)   -- interface-conversion panic inside a backtrack callback / nil dereference
   | outOfFuel
   deriving Repr
 
@@ -99,11 +102,17 @@ def foldRes (f : Nat → St → Res) : List Nat → St → Res
     | .ok s' => foldRes f ks s'
     | e => e
 
+/-- `Value` of an object as a resolver sees it: its own, or (a copy) the one its original had when copied -/
+def getC (w : World) (s : St) (o : Obj) : Option Obj :=
+  match s.get o with
+  | some v => some v
+  | none => ((w.node o).bind (·.orig)).bind s.get
+
 /-- what `component.Value` is after the target has been processed -/
 def valueOf (w : World) (tgt : Obj) (s : St) : Option Obj :=
   match (w.node tgt).bind (·.ref) with
   | none => some tgt
-  | some _ => s.get tgt
+  | some _ => getC w s tgt
 
 def kindOf (w : World) (o : Obj) : Option Kind := (w.node o).map (·.kind)
 
@@ -113,7 +122,7 @@ def unvisit (w : World) (k : Kind) (t : Text) (v : Option Obj) (s : St) : Res :=
   | none => .ok { s with inprog := s.inprog.erase t, pending := s.pending.filter (·.1 ≠ t), nnil := s.nnil + 1 }
   | some v =>
     let mine := s.pending.filter (·.1 = t)
-    if mine.any (fun p => kindOf w p.2 != some k) then .panic
+    if mine.any (fun p => kindOf w p.2 != some k) then .panic s.foreign
     else .ok { s with value := s.value ++ mine.map (fun p => (p.2, v)),
                       inprog := s.inprog.erase t,
                       pending := s.pending.filter (·.1 ≠ t) }
@@ -142,12 +151,12 @@ def resolve (w : World) : Nat → Loc → Obj → St → Res
   | 0, _, _, _ => .outOfFuel
   | fuel + 1, cx, o, s =>
     match w.node o with
-    | none => .err
+    | none => .err s.foreign
     | some n =>
       match n.ref with
       | none => foldRes (fun k s => resolve w fuel cx k s) n.kids s
       | some t =>
-        if (s.get o).isSome then .ok s
+        if (getC w s o).isSome then .ok s
         else if s.inprog.contains t then .ok { s with pending := s.pending ++ [(t, o)], nback := s.nback + 1 }
         else
           let s1 := { s with inprog := s.inprog ++ [t], foreign := s.foreign || (cx != n.home) }
@@ -156,12 +165,12 @@ def resolve (w : World) : Nat → Loc → Obj → St → Res
           | .ok s2 =>
             if w.emptyTarget cx t n.kind then .ok s2 else
             match w.target cx t n.kind with
-            | none => if w.crashes cx t n.kind then .panic else .err     -- dangling
+            | none => if w.crashes cx t n.kind then .panic s2.foreign else .err s2.foreign     -- dangling
             | some (cx', tgt) =>
               match w.node tgt with
-              | none => .err
+              | none => .err s2.foreign
               | some tn =>
-                if tn.kind ≠ n.kind then .err                    -- wrong kind ("bad data in …")
+                if tn.kind ≠ n.kind then .err s2.foreign                -- wrong kind ("bad data in …")
                 else if n.kind = Kind.pathItem ∧ tn.ref.isSome then
                   -- resolvePathItemRef: struct copy, no recursive resolution of the target
                   finish w (fun k s => resolve w fuel cx k s) n.kind t o false (s2.get tgt) s2
@@ -203,6 +212,11 @@ def TextIsGlobal (w : World) : Prop :=
 /-- #12: a reference text is used by reference objects of one kind only -/
 def NoKindClash (w : World) : Prop :=
   ∀ a b na nb t, w.node a = some na → w.node b = some nb → na.ref = some t → nb.ref = some t → na.kind = nb.kind
+
+/-- well-formedness of copies: a copy carries the reference, kind and home of its original -/
+def CopyOK (w : World) : Prop :=
+  ∀ c n r, w.node c = some n → n.orig = some r →
+    ∃ nr, w.node r = some nr ∧ nr.ref = n.ref ∧ nr.kind = n.kind ∧ nr.home = n.home
 
 /-- recorded values are right -/
 def Good (w : World) (s : St) : Prop := ∀ o v, (o, v) ∈ s.value → ∃ f, designates w f o = some v
